@@ -209,9 +209,12 @@ func (dc *dataChunk) endGCWriting() (err error) {
 		dc.gcWriter.Close()
 		dc.gcWriter = nil
 	}
-	if dc.rewriting && (dc.writingHead < dc.size || dc.size == 0) {
-		dc.Truncate(dc.writingHead)
-		dc.size = dc.writingHead
+	if dc.rewriting && dc.size == 0 {
+		// rewritten in place and nothing kept: the (empty) file goes.
+		// A file that was NOT read to its end (the pass stopped on an error) keeps what lies beyond the writing
+		// head: those are the records GC has not looked at yet; the tail of a file that was read to its end has
+		// already been cut off by dropStaleTail.
+		dc.Truncate(0)
 	}
 	dc.rewriting = false
 	return
